@@ -223,8 +223,12 @@ class Real:
             if isinstance(kw['price'], (float, dict)):       # price must be a column name
                 self.prices['p_' + nm] = np.asarray(a.get('rawprice', a['price']), float)
                 kw['price'] = 'p_' + nm
-            kw['min_cap'] = self.series('lo_' + nm, a['lo'], a, True)
-            kw['max_cap'] = self.series('hi_' + nm, a['hi'], a, True)
+            if list(a['lo']) == list(a['hi']) and self.form == 'col':
+                # a fixed profile (must-run / must-take): one time series named for both limits, as a user with one data column would do
+                kw['min_cap'] = kw['max_cap'] = self.series('cap_' + nm, a['lo'], a, True)
+            else:
+                kw['min_cap'] = self.series('lo_' + nm, a['lo'], a, True)
+                kw['max_cap'] = self.series('hi_' + nm, a['hi'], a, True)
             kw['extra_costs'] = float(a['ec'])
             mt, xt = self.takes(a, 'min'), self.takes(a, 'max')
             if k == 'contract':
